@@ -1,6 +1,7 @@
 import GrVerif.Proofs.PassBounds
 import GrVerif.Proofs.LoopBound2
 import GrVerif.Proofs.VmSafe2
+import GrVerif.Proofs.FsmSafe
 import GrVerif.Props.C07
 /-!
 # C02 — shaping any accepted font with any text is safe, terminating and bounded   (partial)
@@ -62,6 +63,14 @@ theorem code_runs_each_instruction_once (i : Instr) (rest : List Instr) (s : St)
       | .inr e => e
       | .inl s' => if continues (s'.vm.sp - STACK_GUARD) then Action.runLoop rest s' else .normal s') := by
   rfl
+
+/-! ### the matcher's tables -/
+
+/-- **`Pass::runFSM` never indexes outside `m_cols`, `m_transitions`, `m_states`** when the pass's tables have the shape the
+loader establishes (`TablesWF`; `C01.accepted_pass_has_wellformed_tables`): the walk with every table access checked never
+faults and is the modelled walk -/
+theorem matcher_stays_inside_its_tables (p : PassT) (h : TablesWF p) (gids : List Nat) (state free : Nat) (rules : List Nat) (pushed : Nat) :
+    fsmScanC p gids state free rules pushed = .ok (fsmScan p gids state free rules pushed) := fsmScanC_eq p h gids state free rules pushed
 
 /-! ### the machine stack -/
 
